@@ -457,24 +457,33 @@ char *FUNC(generate)(jwt_common_t *__cmd)
 
 	jwt->headers = json_deep_copy(__cmd->c.headers);
 	jwt->claims = json_deep_copy(__cmd->c.payload);
+	if (jwt->headers == NULL || jwt->claims == NULL) {
+		// LCOV_EXCL_START
+		jwt_write_error(__cmd, "Error allocating memory");
+		return NULL;
+		// LCOV_EXCL_STOP
+	}
 
 	/* Our internal work first */
 	if (__cmd->c.claims & JWT_CLAIM_IAT) {
 		jwt_set_SET_INT(&jval, "iat", (long)tm);
 		jval.replace = 1;
-		jwt_claim_set(jwt, &jval);
+		if (jwt_claim_set(jwt, &jval))
+			goto claim_error; // LCOV_EXCL_LINE
 	}
 
 	if (__cmd->c.claims & JWT_CLAIM_NBF) {
 		jwt_set_SET_INT(&jval, "nbf", (long)(tm + __cmd->c.nbf));
 		jval.replace = 1;
-		jwt_claim_set(jwt, &jval);
+		if (jwt_claim_set(jwt, &jval))
+			goto claim_error; // LCOV_EXCL_LINE
 	}
 
 	if (__cmd->c.claims & JWT_CLAIM_EXP) {
 		jwt_set_SET_INT(&jval, "exp", (long)(tm + __cmd->c.exp));
 		jval.replace = 1;
-		jwt_claim_set(jwt, &jval);
+		if (jwt_claim_set(jwt, &jval))
+			goto claim_error; // LCOV_EXCL_LINE
 	}
 
 	/* Alg and key checks */
@@ -512,5 +521,11 @@ char *FUNC(generate)(jwt_common_t *__cmd)
 	jwt_copy_error(__cmd, jwt);
 
 	return out;
+
+claim_error:
+	// LCOV_EXCL_START
+	jwt_write_error(__cmd, "Error setting \"%s\" claim", jval.name);
+	return NULL;
+	// LCOV_EXCL_STOP
 }
 #endif
